@@ -10,12 +10,19 @@ package hx
 // Signing, encoding and the chain constants come from one reference suite; all state comes from the replica's own app.
 
 import (
+	"fmt"
 	"math/big"
+	"reflect"
 	"testing"
 	"time"
+	"unsafe"
 
 	"cosmossdk.io/log"
 	cmtdb "github.com/cometbft/cometbft-db"
+	sdkdb "github.com/cosmos/cosmos-db"
+	"github.com/cosmos/cosmos-sdk/baseapp"
+	"github.com/cosmos/cosmos-sdk/client/flags"
+	simtestutil "github.com/cosmos/cosmos-sdk/testutil/sims"
 	sdk "github.com/cosmos/cosmos-sdk/types"
 
 	chainapp "github.com/EscanBE/evermint/v12/app"
@@ -45,4 +52,32 @@ func NewTwinReplica(t *testing.T, ref *Chain, start time.Time) *Chain {
 	c.RunBlock(nil)
 	c.Time = start
 	return c
+}
+
+// TwinRestart replaces the replica's application by a NEW instance opened on the same database, the way a node
+// process is restarted: everything held in memory (keeper fields, caches, check state, IAVL node caches) is gone, the
+// committed state is read back from the store.  The new instance gets its node-local configuration through the
+// genuine start-up path: app options (evm.tracer) and baseapp options (minimum-gas-prices).
+// The database handle is the one NewChainApp created internally (rootmulti.Store.db, unexported).
+func TwinRestart(c *Chain, minGasPrices, evmTracer string) error {
+	cms := reflect.ValueOf(c.App.CommitMultiStore())
+	if cms.Kind() != reflect.Ptr || cms.IsNil() {
+		return fmt.Errorf("commit multistore is not a pointer")
+	}
+	f := cms.Elem().FieldByName("db")
+	if !f.IsValid() || f.Kind() != reflect.Interface {
+		return fmt.Errorf("rootmulti.Store has no interface field `db`: update the harness")
+	}
+	db := *(*sdkdb.DB)(unsafe.Pointer(f.UnsafeAddr()))
+	if db == nil {
+		return fmt.Errorf("nil database")
+	}
+	opts := simtestutil.AppOptionsMap{flags.FlagHome: chainapp.DefaultNodeHome, "evm.tracer": evmTracer}
+	app := chainapp.NewEvermint(log.NewNopLogger(), db, nil, true, map[int64]bool{}, chainapp.DefaultNodeHome, 0,
+		c.S.EncodingConfig, opts, baseapp.SetChainID(c.S.ChainConstantsConfig.GetCosmosChainID()), baseapp.SetMinGasPrices(minGasPrices))
+	if app.LastBlockHeight() != c.Height-1 {
+		return fmt.Errorf("restarted instance is at height %d, expected %d", app.LastBlockHeight(), c.Height-1)
+	}
+	c.App = app
+	return nil
 }
